@@ -72,7 +72,8 @@ def c11():
         "theorems": ["C11_source_tie_isim", "C11_source_tie_radius_compl",
                      "C11_source_tie_radius", "C11_source_tie_diameter", "C11_exact",
                      "C11_nowrap_partial", "C11_all_empty", "C11_two_is_tanimoto",
-                     "C11_column_order", "C11_row_order", "C11_complementary", "C11_nonvacuous"],
+                     "C11_column_order", "C11_row_order", "C11_complementary", "C11_nonvacuous",
+                     "C11_uint64_to_double_is_rne", "C11_no_cancellation", "C11_error_bound", "C11_error_vs_rounded", "C11_not_correctly_rounded_above_2p52_refuted"],
         "suites": [suite_isim.suite_isim, suite_isim.suite_isim_wrappers, __import__('suite_numpysem').suite_numpysem],
         "search": oracles.search_c11,
         "replay": oracles.replay_c11,
@@ -153,7 +154,8 @@ def c09():
             return hit
         for kind, d in failures:
             if isinstance(d, dict) and "what" in d and "Model/" not in d["what"] and "case" in d:
-                return {"violation": d["what"], "case": d["case"]}
+                return {"violation": d["what"], "case": d["case"],
+                        **({"dirty_first": d["dirty_first"]} if d.get("dirty_first") else {})}
             if isinstance(d, dict) and "big_cluster_seed" in d:
                 return {"violation": d["what"], **{k: v for k, v in d.items() if k not in ("what", "suite")}}
         rr = suite_mr.suite_mr_files(seed + 1, "quick")
@@ -174,7 +176,7 @@ def c09():
                      "C09_history", "C09_history_keep", "C09_refine_side_condition_needed"],
         "model_files": ["Model/Obs.v", "Model/Multiround.v", "Gen/GMr.v", "Proofs/GenTieMr.v"],
         "suites": [suite_hist.suite_hist_api, suite_hist.suite_boundary, suite_mr.suite_mr_files,
-                   suite_mr.suite_mr_big, suite_hist.suite_seq_refine("C09")],
+                   suite_mr.suite_mr_big, suite_hist.suite_seq_refine("C09"), suite_mr.suite_mr_options],
         "search": search,
         "replay": replay,
         "level": "proof",
@@ -355,8 +357,9 @@ def c17():
     return {
         "props_file": "Props/C17.v",
         "theorems": ["C17_accept_iff", "C17_same_behaviour", "C17_frame", "C17_reset",
-                     "C17_reset_behaves_fresh", "C17_nonvacuous"],
-        "model_files": ["Model/ObsCfg.v"],
+                     "C17_reset_behaves_fresh", "C17_nonvacuous",
+                     "C17_source_tie_ctor", "C17_source_tie_set_merge", "C17_source_tie_setters"],
+        "model_files": ["Model/ObsCfg.v", "Gen/GConfig.v", "Proofs/GenTieConfig.v"],
         "suites": [suite_config.suite_config, suite_config.suite_reset],
         "search": suite_config.search_c17,
         "replay": suite_config.replay_c17,
@@ -534,8 +537,9 @@ def c14():
         "theorems": ["C14_rerun_equals_fresh", "C14_rerun_frame", "C14_globs_are_purged", "C14_cleanup",
                      "C14_no_partial_final", "C14_run_is_writes", "C14_failed_run_no_final", "C14_failed_run_no_final_any_subset",
                      "C14_nonvacuous", "C14_instance_not_trivial", "C14_source_tie_purge",
-                     "C14_source_tie_cleanup", "C14_source_tie_publish", "C14_source_tie_publish_names"],
-        "model_files": ["Model/Multiround.v", "Gen/GMr.v", "Proofs/GenTieMr.v", "Gen/GMrDel.v", "Proofs/GenTieMrDel.v"],
+                     "C14_source_tie_cleanup", "C14_source_tie_publish", "C14_source_tie_publish_names",
+                     "C14_publish_all", "C14_publish_prefix_no_final", "C14_publish_prefix_purged", "C14_pub_prefix_purged_gen", "C14_run_multiround_pub_eq", "C14_crash_in_publish_no_final", "C14_crash_in_publish_then_rerun"],
+        "model_files": ["Model/Multiround.v", "Gen/GMr.v", "Proofs/GenTieMr.v", "Gen/GMrDel.v", "Proofs/GenTieMrDel.v", "Proofs/MrPublish.v"],
         "suites": [suite_mr.suite_crash, suite_mr.suite_worker_crash, suite_mr.suite_mr_files, __import__('suite_numpysem').suite_numpysem],
         "search": suite_mr.search_mr("C14"),
         "replay": suite_mr.replay_c14,
@@ -565,7 +569,7 @@ def c05():
                      "C05_source_tie_names", "C05_source_tie_globs",
                      "C05_run_succeeds"],
         "model_files": ["Model/Multiround.v", "Gen/GMr.v", "Proofs/GenTieMr.v"],
-        "suites": [suite_mr.suite_mr_files, suite_mr.suite_mr_big],
+        "suites": [suite_mr.suite_mr_files, suite_mr.suite_mr_big, suite_mr.suite_mr_options],
         "search": suite_mr.search_mr("C05"),
         "replay": suite_mr.replay_mr("C05"),
         "level": "proof",
